@@ -187,7 +187,10 @@ double Integrate(std::function<double(double)> func, double a, double b, const s
 	else if(method == "Gauss-Kronrod")
 	{
 		int max_depth = method_parameter == 0 ? 5 : method_parameter;
-		return sign * gauss_kronrod<double, 31>::integrate(func, a, b, max_depth, 1e-9);
+		// The adaptive rule is applied on [-1,1]: boost compares the error estimate of the unit-interval rule with a tolerance that carries the half-length of [a,b], so on a long interval it stops subdividing too early (and the 1e-9 is no longer a relative accuracy).
+		double mid = 0.5 * a + 0.5 * b, half = 0.5 * b - 0.5 * a;
+		auto unit_integrand = [&func, mid, half](double u) { return half * func(mid + half * u); };
+		return sign * gauss_kronrod<double, 31>::integrate(unit_integrand, -1.0, 1.0, max_depth, 1e-9);
 	}
 	else if(method == "Tanh-Sinh")
 	{
